@@ -160,6 +160,9 @@ func runHist(cfg *config) error {
 	if err != nil {
 		return err
 	}
+	if f := x["flavor"]; f != "" {
+		mode.flavors = strings.Split(f, "+")
+	}
 	ctx := context.Background()
 	srv, err := sim.Start(cfg.out, sim.Options{})
 	if err != nil {
